@@ -370,11 +370,19 @@ class SliceSlicesIntegers(Slice):
         if isinstance(self.array, SliceSlicesIntegers):
             try:
                 fused = fuse_slice(self.array.index, self.index)
-                normalized = tuple(
-                    normalize_slice(idx, dim) if isinstance(idx, slice) else idx
-                    for idx, dim in zip(fused, self.array.array.shape)
-                )
-                return SliceSlicesIntegers(self.array.array, normalized, self.allow_getitem_optimization)
+                normalized = []
+                for idx, dim in zip(fused, self.array.array.shape):
+                    if isinstance(idx, slice):
+                        if math.isnan(dim):
+                            # Only the full slice can be planned on an axis of
+                            # unknown size; fuse_slice spells it slice(0, None).
+                            if idx.start not in (0, None) or idx.stop is not None or idx.step not in (1, None):
+                                raise NotImplementedError("slice of an axis of unknown size")
+                            idx = slice(None)
+                        else:
+                            idx = normalize_slice(idx, dim)
+                    normalized.append(idx)
+                return SliceSlicesIntegers(self.array.array, tuple(normalized), self.allow_getitem_optimization)
             except NotImplementedError:
                 # Skip fusion for unsupported slicing patterns (e.g., negative step)
                 pass
